@@ -432,6 +432,7 @@ def run_case(case):
     rect = aa.mesh.Rectangular(shape=(3, 3))
     tri_meshes = [("Delaunay", aa.mesh.Delaunay()), ("Voronoi", aa.mesh.Voronoi())]
 
+    prev = None
     for ti, tid in enumerate(TRANSFORMS):
         rs = dom.rng(seed, "c18", tid, H, W, sm)
         S = transform(tid, G, geo, rs)
@@ -452,6 +453,14 @@ def run_case(case):
         Mv = np.concatenate([outl, B, extra, keep[: min(2, N)]], axis=0)
         outm = br.relocated_mesh_grid_from(grid=aa.Grid2DIrregular(values=keep.copy()), mesh_grid=aa.Grid2DIrregular(values=Mv.copy()))
         check_relocation(v, "relocated_mesh_grid_from", B, Mv, np.asarray(outm), st, ctx)
+        # the same relocator is reused across source planes: mesh vertices must be relocated against the border of the data
+        # grid PASSED IN, also when the last data grid this relocator relocated was a different one
+        if prev is not None:
+            Bp, keepp, Mvp, tidp = prev
+            outp = br.relocated_mesh_grid_from(grid=aa.Grid2DIrregular(values=keepp.copy()), mesh_grid=aa.Grid2DIrregular(values=Mvp.copy()))
+            check_relocation(v, "relocated_mesh_grid_from", Bp, Mvp, np.asarray(outp), st,
+                             lambda: "%s transform=%s (relocator last used on transform=%s)" % (desc(), tidp, tid))
+        prev = (B, keep, Mv, tid)
 
         if tid in MAPPER_TRANSFORMS:
             if sm == "u1":
